@@ -181,9 +181,10 @@ BUILDS = {
                         's_generic_packedpair', 's_sse2_packedpair', 's_avx2_packedpair'],
                  prelude=P0 + ['prelude/x_eqrk.vrs', 'prelude/x_pp.vrs']),
     # the substring front end against assumed searcher contracts (stubs)
-    'memmem': dict(parts=['ext', 'vector', 'stub_root', 'stub_all_memchr', 'stub_all_packedpair', 'stub_rabinkarp',
+    'memmem': dict(parts=['ext', 'vector', 'generic_memchr', 'sse2_memchr', 'avx2_memchr', 'all_memchr', 'x86_64_memchr',
+                          'memchr_top', 'root_reexport', 'all_mod', 'all_rabinkarp', 'all_packedpair', 'all_default_rank',
                           'stub_twoway', 'cow', 'memmem_mod', 'memmem_pre', 'memmem_searcher'],
-                   prelude=P0 + ['prelude/x_memmem.vrs']),
+                   prelude=P0 + ['prelude/x_eqrk.vrs', 'prelude/x_pp.vrs', 'prelude/x_memmem.vrs']),
     # development builds (one per porting task; each may add its own prelude/x_<name>.vrs)
     'dev_generic': dict(parts=BASE, prelude=P0),
     'dev_eq': dict(parts=['ext', 'vector', 'all_mod'], prelude=P0),
